@@ -81,6 +81,10 @@ def names(case, scheme="plain"):
         return VAR_NAMES[:v], [0, "0", 1][:t]
     if scheme == "mixedpda":  # two terminals with one spelling + variables named like the stack symbols to_pda invents
         return ["S", "##TERM#0", "###TERM#0"][:v], [0, "0", 1][:t]
+    if scheme == "epsspelt":  # terminals spelt like the text format's epsilon markers (legal terminal values)
+        return VAR_NAMES[:v], ["$", "ε", "ϵ"][:t]
+    if scheme == "mixedcnf":  # two terminals with one spelling + a variable named like the bumped #CNF# variable
+        return ["S", "0#CNF##", "0#CNF#"][:v], [0, "0", 1][:t]
     if scheme == "dollar":    # a variable and a terminal spelt like the end marker of the LL(1) parser
         return ["S", "$", "#"][:v], ["a", "$", "b"][:t]
     if scheme == "lower":
@@ -128,3 +132,15 @@ def long_body_cases():
         for k in range(0, 3):
             for sub in combinations(short, k):
                 yield (3, 2, tuple(sorted(((0, body3),) + sub)))
+
+
+def shared_suffix4_cases():
+    """S -> p1 p2 s1 s2 | q1 q2 s1 s2 | a : two bodies of length 4 with a common suffix of length 2 (prefixes over the
+    terminals, suffix over {S, a, b}); aimed at the suffix sharing of the binarisation beyond the first chain step"""
+    # symbols: 0 = S, 1 = a, 2 = b
+    for p in product((1, 2), repeat=2):
+        for q in product((1, 2), repeat=2):
+            if q <= p:
+                continue
+            for suf in product((0, 1, 2), repeat=2):
+                yield (1, 2, tuple(sorted({(0, p + suf), (0, q + suf), (0, (1,))})))
